@@ -40,3 +40,22 @@ Definition stream_handshake (sid : Z) (p : position) (r : set_reply) : handshake
   end.
 
 Definition is_dump (q : request) : bool := match q with RDump _ _ _ _ => true | RQuery _ => false end.
+
+(* ---- the packet reader (slave_connection.go readBinlogEvent and the loop of the reader goroutine) ----
+   A packet whose first byte is the EOF or ERR marker ends the stream; every other packet becomes one event: the
+   packet without its first byte, copied.  The reader loop hands each event to the parser in the order read and
+   stops at the first packet that is not an event; it neither drops nor alters nor reorders anything. *)
+Inductive packet_class := PktEvent (ev : bytes) | PktEOF | PktERR | PktEmpty.
+
+Definition read_binlog_event (pkt : bytes) : packet_class :=
+  match pkt with
+  | [] => PktEmpty                       (* buf[0] panics: the driver never returns an empty packet *)
+  | b :: rest => if b =? 254 then PktEOF else if b =? 255 then PktERR else PktEvent rest
+  end.
+
+(* the events the parser is offered, in order, for a sequence of packets *)
+Fixpoint reader_events (pkts : list bytes) : list bytes :=
+  match pkts with
+  | [] => []
+  | p :: r => match read_binlog_event p with PktEvent ev => ev :: reader_events r | _ => [] end
+  end.
